@@ -19,6 +19,22 @@ def together_contract(op, go_line, lean_line):
     return op.startswith("su.together") and strip(go_line) == strip(lean_line)
 
 
+def gen_cancel(r, tier):
+    """concurrent starts of fans that all need analysis, and the stop request (context cancellation) arrives while one is
+    being analysed and the others are queued: whatever the queued ones do then, they must not analyse next to it
+    (seed C16f: the wait for the turn was abandoned on cancellation, the analysis was not)"""
+    ops = []
+    for _ in range(8 if tier == "quick" else 150):
+        ops.append("#case su parallel=0 cancel")
+        ops.append(f"su.open parallel=0 yield_us={r.range(30, 80)}")
+        n = r.range(2, 4)
+        ids = [f"t{i}" for i in range(n)]
+        for fid, q in zip(ids, r.shuffle([4, 8, 16, 32])[:n]):
+            ops.append(ss._fan_line(fid, "hwmon", False, False, True, r.chance(0.2), q, r.range(5, 90)))
+        ops.append(f"su.together fans={','.join(ids)} delays_us={','.join(str(r.range(0, 300)) for _ in ids)} cancel_us={r.pick([2000, 5000, 10000, 20000, 40000])}")
+    return ops
+
+
 class C16(Prop):
     id = "C16"
     lean_modules = ["Fan2go.Props.C16"]
@@ -31,7 +47,9 @@ class C16(Prop):
                    "the source's call order (fact_init_locked / fact_map_locked / C16_generated_program_ok)"]
     partial_note = "schedules of the real Go runtime are sampled (dozens of concurrent starts), the LTS theorem covers all interleavings of the extracted programs; scheduler fairness is not modelled"
     streams = [Stream("together-seq", gen_seq, parallel=2, timeout=1800),
-               Stream("together-par", gen_par, parallel=2, exact=False, contract=together_contract, timeout=1800)]
+               Stream("together-par", gen_par, parallel=2, exact=False, contract=together_contract, timeout=1800),
+               # oracle-only: when exactly the cancellation lands is up to the scheduler
+               Stream("together-cancel", gen_cancel, parallel=2, exact=False, contract=lambda op, a, b: True, timeout=1800)]
 
     def oracle(self, name, ops, go):
         out = []
